@@ -9,8 +9,9 @@
 Require Import ExtrOcamlBasic.
 Require Import ExtrOcamlNatInt.
 Require Import Selen.Model.Prelude Selen.Model.SparseSet Selen.Model.SetSpec.
-Require Import Selen.Model.Dom Selen.Model.Views Selen.Model.PropDefs Selen.Model.Props.Basic Selen.Model.Props.LinInt Selen.Model.Props.Global Selen.Model.Propagate Selen.Model.Search.
+Require Import Selen.Model.Dom Selen.Model.Views Selen.Model.PropDefs Selen.Model.Props.Basic Selen.Model.Props.LinInt Selen.Model.Props.Global Selen.Model.Props.Logic Selen.Model.Propagate Selen.Model.Search.
 Require Import Selen.Model.LP Selen.Model.Limits.
+Require Import Selen.Model.Gac Selen.Model.Props.AllDiff.
 Extraction Language OCaml.
 Set Extraction AccessOpaque.
 Cd "Extract".
@@ -22,7 +23,13 @@ Extraction "selen_model.ml"
   mk_add mk_sub mk_leq mk_lt mk_geq mk_gt mk_eq mk_neq_noop mk_sum
   all_zero mk_lin_eq mk_lin_le mk_lin_ne mk_lin_eq_reif mk_lin_le_reif mk_lin_ne_reif
   mk_count mk_at_least mk_at_most mk_exactly mk_element mk_table table_okb
+  mk_band mk_bor mk_bnot mk_bxor mk_eq_reif mk_ne_reif mk_lt_reif mk_le_reif mk_gt_reif mk_ge_reif
+  mk_alleq mk_alleq_fixed kf_alleq_empty mk_between mk_ite
   fifo lcg_pick propagate prop_fuel agenda_with search enumerate minimize maximize solve
   solve_lim minimize_lim enumerate_lim never from_check
-  mkLP lp_wf feasible objective check_opt check_infeasible feasible_tol q_close_rel lp_solve f64_to_Q qdot lp_nvars needs_phase1.
+  mkLP lp_wf feasible objective check_opt check_infeasible feasible_tol q_close_rel lp_solve f64_to_Q qdot lp_nvars needs_phase1
+  bs_new bs_from_values sp_new sp_from_values bs_remove_value bs_assign bs_remove_above bs_remove_below sp_assign
+  hy_new hy_from_values hy_remove_value hy_assign hy_remove_above hy_remove_below
+  bitset_alldiff hybrid_alldiff sparse_alldiff bitset_propagate hybrid_propagate sparse_propagate all_vars all_sols sol_check
+  kf_sparse_matching kf_sparse_value_range mk_alldiff.
 Cd "..".
